@@ -759,6 +759,27 @@ func runC17(r *Run) {
 		}
 	}
 	gen("", maxS)
+	// ... and every concatenation of up to three written-out pieces: names, dots and bracket forms with blanks in every
+	// place a person might put one (conf[ "host" ], a[ 0 ], a['k' ], a[ ' k ' ])
+	pieces := []string{"a", "b", ".", ". ", " .", " ", "[0]", "[ 0 ]", "[0 ]", "['k']", "[\"k\"]", "[ 'k' ]", "[ \"k\" ]", "['k' ]", "[ \"k\"]", "[' k ']", "[k]", "[ k ]", "[]", "[ ]", "['']", "[ '' ]", "['k\"]", "[ 'k]", "]", "["}
+	var gen2 func(p string, n int)
+	seen := map[string]bool{}
+	for _, x := range all {
+		seen[x] = true
+	}
+	gen2 = func(p string, n int) {
+		if !seen[p] {
+			seen[p] = true
+			all = append(all, p)
+		}
+		if n == 0 {
+			return
+		}
+		for _, c := range pieces {
+			gen2(p+c, n-1)
+		}
+	}
+	gen2("", 3)
 	for i := 0; i < len(all); i += 600 {
 		j := i + 600
 		if j > len(all) {
